@@ -5,8 +5,8 @@ package literal
 // Contracts for the deductive verifier in /verif (govc). Comment-only file.
 
 // C10: a Go integer offered as a value is stored exactly (nodeInt is the mathematical value of the
-// resulting node) or rejected -- never silently altered.  Only the fast path (the type switch) is
-// verified; the reflection-based slow path is abstracted (anyAssemble is trusted to return some assembler).
+// resulting node) or rejected -- never silently altered.  The fast path (the type switch) is verified against
+// storedExactly; the reflection-based slow path is verified for its integer conversions (see anyAssemble).
 //@ pure func storedExactly(v any, n ipld.Node) bool =
 //@     (v is int ==> nodeInt(n) == v.(int)) && (v is int8 ==> nodeInt(n) == v.(int8)) && (v is int16 ==> nodeInt(n) == v.(int16))
 //@  && (v is int32 ==> nodeInt(n) == v.(int32)) && (v is int64 ==> nodeInt(n) == v.(int64))
@@ -15,6 +15,7 @@ package literal
 //@  && (v is datamodel.Node ==> n == v.(datamodel.Node))
 //@
 //@ func Any
+//@   exactconv
 //@   ensures [C10] exact: err == nil ==> storedExactly(v, res)
 //@   ensures [C10] nonnil: err == nil ==> res != nil
 //@   ensures [C10] int: v is int && err == nil ==> nodeInt(res) == v.(int)
@@ -31,7 +32,18 @@ package literal
 //@   ensures [C10] node: v is datamodel.Node && err == nil ==> res == v
 //@   ensures [C19] bytes: v is []byte && err == nil ==> res == bytesNode(bytes(v.([]byte)))
 //@
+//@ // the reflection path: verified for what it does to integers - every integer conversion preserves the mathematical value
+//@ // (an unsigned value beyond 2^53-1 is refused before it is converted) - and to return an assembler; what the quick-build
+//@ // assemblers then write is the dependency's business.  Panicking is its way of refusing: Any recovers.
 //@ func anyAssemble
-//@   trusted
-//@   ensures result != nil
+//@   maypanic
+//@   exactconv
+//@   decreases _
+//@   ensures [C10] nonnil: result != nil
+//@ func anyAssemble$1
+//@   loop 0: invariant true
+//@ func anyAssemble$2
+//@   loop 0: invariant true
+//@ func anyAssemble$4
+//@   loop 0: invariant true
 
